@@ -10,6 +10,7 @@ package simrt
 import (
 	"fmt"
 	"time"
+	"unsafe"
 )
 
 type state uint8
@@ -80,7 +81,8 @@ type Sim struct {
 	// norace functions: maps and append call into runtime helpers that report to the
 	// race detector on behalf of their caller, and the baton that orders these
 	// accesses is deliberately invisible to the detector.
-	chans []chanInfo
+	chans   []chanInfo
+	chanTab []int32 // open-addressing index into chans (ordinal, 0 = empty)
 
 	sites    [siteSlots]*SiteStat
 	siteList []*SiteStat
@@ -123,7 +125,7 @@ const (
 )
 
 type chanInfo struct {
-	ptr  uintptr
+	ref  unsafe.Pointer // keeps the channel alive for the whole run (see chanOrd)
 	name string
 }
 
